@@ -138,13 +138,25 @@ Section ApiProofs.
       + destruct io as [g | res].
         * destruct (run_stub pol (mkvm true (sp v + gdepth m) g (stack_size v)) m e a)
             as [[r2 pk2] v2] eqn:Hrs.
-          inversion H; subst r2 v2. clear H.
-          apply run_stub_spec in Hrs. simpl in Hrs.
-          destruct Hrs as [_ [[_ [-> _]] | [Hr [_ [Hi' [Hss' [_ Hsp']]]]]]].
-          -- split; simpl; auto. unfold base. lia.
-          -- split; [congruence|]. rewrite Hi'. rewrite Hsp', Hp. unfold base.
-             destruct (fst (fst (exec m e a g))) eqn:Ho; simpl in Hr; try lia;
-               (destruct Hgood as [Hre | [x Hx]]; [rewrite Hre; lia | congruence]).
+          assert (Hv2 : at_base ss m v2 \/ (restore_on_error pol = true /\ returns Value Exc r2 = false)).
+          { apply run_stub_spec in Hrs. simpl in Hrs.
+            destruct Hrs as [_ [[_ [-> _]] | [Hr [_ [Hi' [Hss' [_ Hsp']]]]]]].
+            - left. split; simpl; auto. unfold base. lia.
+            - destruct (restore_on_error pol) eqn:Hre.
+              + destruct (returns Value Exc r2) eqn:Hret; [|right; auto].
+                left. split; [congruence|]. rewrite Hi'. rewrite Hsp', Hp. unfold base.
+                destruct (fst (fst (exec m e a g))) eqn:Ho; simpl in Hr; subst r2; simpl in Hret;
+                  try discriminate; lia.
+              + left. split; [congruence|]. rewrite Hi'. rewrite Hsp', Hp. unfold base.
+                assert (Hrr : r2 = r) by (inversion H; auto).
+                rewrite Hrr in Hr.
+                destruct Hgood as [Hre' | [x Hx]]; [discriminate|].
+                destruct (fst (fst (exec m e a g))) eqn:Ho; simpl in Hr; try congruence; lia. }
+          inversion H; subst r2. clear H.
+          destruct Hv2 as [Hv2 | [Hre Hret]].
+          -- destruct (restore_on_error pol); [destruct (returns Value Exc r)|]; auto.
+             split; auto. rewrite Hi; auto.
+          -- rewrite Hre, Hret. split; auto. rewrite Hi; auto.
         * inversion H; subst. destruct Hgood as [Hre | [x Hx]]; [|discriminate].
           rewrite Hre. split; auto. rewrite Hi; auto.
   Qed.
@@ -208,9 +220,10 @@ Section ApiProofs.
           -- destruct io as [g | res].
              ++ destruct (run_stub pol (mkvm true (sp v + gdepth m) g (stack_size v)) m e a)
                   as [[r2 pk2] v2] eqn:Hrs.
-                inversion He; subst r2 v2. apply run_stub_spec in Hrs. simpl in Hrs.
+                inversion He; subst r2. apply run_stub_spec in Hrs. simpl in Hrs.
                 destruct Hrs as [_ [[_ [-> _]] | [Hr _]]].
-                ** destruct Hv as [Hss Hsp]. rewrite Hi in Hsp. split; simpl; auto. unfold base; lia.
+                ** destruct Hv as [Hss Hsp]. rewrite Hi in Hsp.
+                   destruct (restore_on_error pol); simpl; split; simpl; auto; unfold base; lia.
                 ** exfalso; eapply result_of_not_died; eauto.
              ++ inversion He.
   Qed.
@@ -264,7 +277,9 @@ Section ApiProofs.
   Theorem first_call_is_init_then_primed_call : forall pol ss m e a g pk0,
     init m = (InitOk g, pk0) -> over (vm_new gnone ss) (-1) pk0 = false ->
     execute pol (vm_new gnone ss) m e a =
-      (let '(r, pk, v') := run_stub pol (primed gdepth ss m g) m e a in (r, Z.max (-1 + pk0) pk, v')).
+      (let '(r, pk, v') := run_stub pol (primed gdepth ss m g) m e a in
+       (r, Z.max (-1 + pk0) pk,
+        if restore_on_error pol then (if returns Value Exc r then v' else vm_new gnone ss) else v')).
   Proof.
     intros pol ss m e a g pk0 Hin Hov. unfold Api.execute. simpl. rewrite Hin. simpl in Hov |- *.
     rewrite Hov. unfold primed, base. reflexivity.
@@ -311,11 +326,14 @@ Section ApiProofs.
           as [[ra pka] va] eqn:Ha.
         destruct (run_stub pol (mkvm true (sp v2 + gdepth m) g (stack_size v2)) m e a)
           as [[rb pkb] vb] eqn:Hb.
-        inversion H1; subst ra va. inversion H2; subst rb vb. clear H1 H2.
+        inversion H1; subst ra. inversion H2; subst rb. clear H1 H2.
         apply run_stub_spec in Ha. apply run_stub_spec in Hb. simpl in Ha, Hb.
         destruct Ha as [_ [[-> _] | [Hr1 [_ [Hi1' [_ [Hg1 _]]]]]]]; auto.
         destruct Hb as [_ [[-> _] | [Hr2 [_ [Hi2' [_ [Hg2 _]]]]]]]; auto.
-        right; right. split; [congruence|]. split; congruence.
+        right; right. split; [congruence|].
+        assert (r1 = r2) by congruence. subst r2.
+        destruct (restore_on_error pol); [destruct (returns Value Exc r1)|];
+          split; simpl; congruence.
       + inversion H1; inversion H2; subst. right; right. split; auto.
         destruct (restore_on_error pol); split; simpl; auto; congruence.
   Qed.
